@@ -24,7 +24,17 @@ Definition s_branch' (vars : svars) (doc : value) (b : value) : option (sres * s
   | _ => None
   end.
 
-Tactic Notation "crack" ident(s) := let t := fresh "t" in destruct s as [|[[] [] [] [] [] [] [] []] t]; try reflexivity; try rename t into s.
+(* split off the first character of [s], one bit at a time; the cases that both sides decide
+   are closed as soon as they are decided (instead of after all 256 splits) *)
+Tactic Notation "crack" ident(s) :=
+  let t := fresh "t" in
+  let b0 := fresh "b" in let b1 := fresh "b" in let b2 := fresh "b" in let b3 := fresh "b" in
+  let b4 := fresh "b" in let b5 := fresh "b" in let b6 := fresh "b" in let b7 := fresh "b" in
+  destruct s as [|[b0 b1 b2 b3 b4 b5 b6 b7] t];
+  [ try reflexivity
+  | destruct b0; try reflexivity; destruct b1; try reflexivity; destruct b2; try reflexivity;
+    destruct b3; try reflexivity; destruct b4; try reflexivity; destruct b5; try reflexivity;
+    destruct b6; try reflexivity; destruct b7; try reflexivity; try rename t into s ].
 
 Lemma s_branch_eq vars doc b : s_branch vars doc b = s_branch' vars doc b.
 Proof.
